@@ -94,6 +94,8 @@ class EnvRunner(core.Hooks):
         self.in_dispatch = None
         self.model_ok = True
         self.unpaused_labels = set()
+        self.next_label = None
+        self.acts = {}
 
     # ---- helpers -------------------------------------------------------
     def bump(self, d, k, n=1):
@@ -119,6 +121,9 @@ class EnvRunner(core.Hooks):
 
     def label_of(self, e):
         a = e.action
+        lb = getattr(e, '_simv_label', None)
+        if lb is not None:
+            return lb
         if isinstance(a, Act):
             return a.label
         f = getattr(a, '__func__', None)
@@ -127,6 +132,9 @@ class EnvRunner(core.Hooks):
         return f'?{getattr(a, "__name__", a)}'
 
     def on_event_created(self, e):
+        if self.next_label is not None:
+            e._simv_label = self.next_label
+            self.next_label = None
         if not isinstance(e.action, Act):
             # the only library-created events in envsim are TERMINATE events
             self.term_n += 1
@@ -182,6 +190,13 @@ class EnvRunner(core.Hooks):
     def ever_unpaused(self, lb):
         return lb in self.unpaused_labels
 
+    def aid(self, a):
+        """asset id as handed to the Environment: optionally far outside the small-int cache and always a fresh object"""
+        if a is None or a < 0:
+            return a
+        base = self.case.get('id_base', 0)
+        return int(str(base + a)) if base else a
+
     # ---- ops (called from the driver and from inside actions) -----------
     def apply_op(self, op):
         env, m = self.env, self.model
@@ -190,11 +205,22 @@ class EnvRunner(core.Hooks):
         if kind == 'sched':
             ev = op[1]
             t = env.now + ev['d']
-            try:
-                env.schedule_event(t, ev['a'], Act(self, ev), ev['pr'], f"m{ev['id']}")
-            except ValueError as e:
-                self.fail('C01.c', f'scheduling at {t} >= now={env.now} was rejected: {e}', 'reject')
-            m.sched(ev['id'], t, ev['pr'], ev['a'])
+            act = Act(self, ev)
+            labels = [ev['id']] + ([f"{ev['id']}twin"] if ev.get('twin') else [])
+            for lb in labels:
+                # with 'twin' the very same callable is scheduled twice for the same time, asset and priority:
+                # two events, both must run
+                self.next_label = lb
+                try:
+                    env.schedule_event(t, self.aid(ev['a']), act, ev['pr'], f"m{ev['id']}")
+                except ValueError as e:
+                    self.fail('C01.c', f'scheduling at {t} >= now={env.now} was rejected: {e}', 'reject')
+                if self.next_label is not None:
+                    self.next_label = None
+                    self.fail('C01.f', f'schedule_event created no event for {lb}', 'no_event')
+                m.sched(lb, t, ev['pr'], ev['a'])
+                if len(labels) > 1:
+                    self.bump(self.stats['reach'], 'same_callable_twice')
             if ev['a'] in {r[2] for r in m.paused.values()}:
                 self.bump(self.stats['reach'], 'sched_while_paused')
         elif kind == 'past':
@@ -221,7 +247,7 @@ class EnvRunner(core.Hooks):
             a = op[1]
             had_q = any(r[2] == a for r in m.q.values())
             had_p = any(r[2] == a for r in m.paused.values())
-            env.pause_matching_events(asset_id=a)
+            env.pause_matching_events(asset_id=self.aid(a))
             m.pause(a)
             if had_q and env.now != 0:
                 self.bump(self.stats['reach'], 'pause_nonzero_with_pending')
@@ -241,14 +267,21 @@ class EnvRunner(core.Hooks):
                 self.unpaused_labels.add(lb)
             if not shifted:
                 self.bump(self.stats['reach'], 'redundant_unpause')
-            env.unpause_matching_events(asset_id=a)
+            env.unpause_matching_events(asset_id=self.aid(a))
             m.unpause(a)
         elif kind == 'cancel':
             a = op[1]
             if any(r[2] == a for r in m.paused.values()):
                 self.bump(self.stats['reach'], 'cancel_paused')
-            env.cancel_matching_events(asset_id=a)
+            env.cancel_matching_events(asset_id=self.aid(a))
             m.cancel(a)
+        elif kind == 'newenv':
+            # another Environment comes to life (and pauses something of its own): this one must not notice
+            other = self.lib.Environment()
+            other.schedule_event(1, self.aid(1), lambda: None, 5)
+            other.pause_matching_events(asset_id=self.aid(1))
+            self.others.append(other)
+            self.bump(self.stats['reach'], 'second_environment')
         elif kind == 'noop':
             pass
         else:
@@ -260,7 +293,8 @@ class EnvRunner(core.Hooks):
 
     def on_action(self, act):
         env = self.env
-        self.log.append((act.label, env.now))
+        lb = self.label_of(self.in_dispatch) if self.in_dispatch is not None else act.label
+        self.log.append((lb, env.now))
         self.stats['actions'] += 1
         if self.in_dispatch is None:
             self.fail('C01.d', f'action of {act.label} invoked outside a dispatch', 'outside')
@@ -361,6 +395,7 @@ class EnvRunner(core.Hooks):
         self.env = env = lib.Environment()
         core.begin_run(self, env, self.case['tiebreak'])
         self.exec_count = {}
+        self.others = []
         m = self.model
         for drv in self.case['driver']:
             kind = drv[0]
@@ -446,13 +481,15 @@ class _Gen:
     def ev(self, depth):
         rng = self.rng
         self.left -= 1
-        e = {'id': next(self.ids), 'd': rng.choice(self.delays), 'a': self.asset(),
+        e = {'id': next(self.ids), 'd': rng.choice(self.delays), 'a': self.asset() if rng.random() > 0.04 else -1,
              'pr': rng.choice(self.prios), 's': []}
         if depth < 3:
             for _ in range(rng.choice((0, 0, 0, 1, 1, 2, 3))):
                 if self.left <= 0:
                     break
                 e['s'].append(self.op(depth + 1))
+        if not e['s'] and rng.random() < 0.06:
+            e['twin'] = True      # (only events without a script: a script would create its children twice)
         return e
 
     def op(self, depth):
@@ -461,6 +498,8 @@ class _Gen:
         pb = self.pause_bias
         if x < 0.55 - pb * 0.3:
             return ['sched', self.ev(depth)]
+        if x < 0.57 - pb * 0.3:
+            return ['newenv']
         if x < 0.60 - pb * 0.3:
             return ['past', rng.choice((0.25, 0.5, 1, 2.0 ** -20, 'ulp', 'ulp', 'rel'))]
         x = rng.random()
@@ -507,7 +546,10 @@ def gen_program(rng, pause_bias=0.0):
     if rng.random() < 0.06:
         # a late clock: one ulp is large, relative tolerances are wide
         driver.insert(0, ['run', float(rng.choice((2 ** 20, 2 ** 30, 10 ** 6 + 0.5)))])
-    return {'engine': 'envsim', 'tiebreak': core.gen_tiebreak(rng), 'driver': driver}
+    case = {'engine': 'envsim', 'tiebreak': core.gen_tiebreak(rng), 'driver': driver}
+    if rng.random() < 0.15:
+        case['id_base'] = 100000      # asset ids that are not small cached integers
+    return case
 
 
 SYS_ALPHA = ([['sched', a, d] for a in (1, 2) for d in (0.5, 1.5)]
